@@ -6430,7 +6430,8 @@ impl Deserialize for bit_vec08::BitVec<u32> {
         if numbytes & (1 << 63) != 0 {
             //New format
             numbytes &= !(1 << 63);
-            let numbits_stored = numbytes.checked_mul(8).ok_or(SavefileError::SizeOverflow)?;
+            // Storage is read in whole 32 bit words
+            let numbits_stored = (numbytes / 4).checked_mul(32).ok_or(SavefileError::SizeOverflow)?;
             if numbits > numbits_stored {
                 return Err(SavefileError::GeneralError {
                     msg: "BitVec claims to have more bits than it has storage for".to_string(),
